@@ -344,7 +344,7 @@ def task_digits(prop, seed, size, cfgbins):
 def run(prop, tier, seed, t0):
     from .. import plan
     if tier == 'quick':
-        cfgs = ['simd', 'serial32', 'simd-notables']
+        cfgs = ['simd', 'serial32', 'simd-notables', 'fiat32']
         profiles = ('rel',)
     else:
         cfgs = plan.ALL_CFGS + ['simd-notables', 'serial32-notables', 'avx512-notables', 'fiat64-notables']
